@@ -195,7 +195,8 @@ class Gen:
             m = self.pick()
             if not m: return
             c = r.random()
-            ok = [k for k in range(6) if k not in self.fd_dead]
+            mi = self.h.index(m) if m in self.h else 0
+            ok = [k for k in range(6) if k not in self.fd_dead and (k % 3 == mi % 3 or self.r.random() < 0.05)]
             if not ok: return
             k = r.choice(ok)
             if c < 0.45:
